@@ -66,6 +66,7 @@ func main() {
 			"rotation trigger and start-up threshold are also measured for windows that contain a timeslot ceil(k*2^32/300) (k = 1, 2 and a seeded k) and for the highest window below 2^32, reached through the same pre-seeded signed record (trusted disk state); there the clock walks upward until the first rotation (one rotation per directory)",
 			"first-check episode (rotation gate open): wall-clock progress bound with a scheduler-responsiveness control. Time is taken from just before NewGCAServer to the first migrateReports (stamped in the rotating goroutine). Held as soon as ONE of up to 30 trials rotates in less than half a check period (a loop that sleeps a period first can never do that); violated only if at least 8 trials ALL took at least one period and a 1 ms watchdog goroutine saw no wake-up gap above period/4 in at least 5 of them; anything else is recorded as not established and fails nothing",
 			"start-ups after very long gaps (up to thousands of weeks) use fresh directories (no devices, cheap rotations) and one small populated server; the judgement right after start (rotation loop parked) only demands the current slot, the one after a single released loop iteration the whole acceptance range",
+			"oldest acceptable slots: only when at least one rotation happened in the start-up episode under judgement are the reports for now-432 .. now-1 required to be storable (right after start and after one released loop iteration); a window that legitimately starts less than 432 slots before the clock without any rotation (genesis) is not judged",
 			"production build = tags 'verif' without 'test'; the verif tag only adds accessor functions (add-only hooks)",
 			"unix times at or beyond genesis+2^32 s and timeslots above floor((2^32-1)/300) are outside the property's quantifier; what the code returns just beyond is recorded, not judged",
 			"the inequality uses ceil(period/300 s) slots for the rotation check period and does not model the duration of the rotation itself",
@@ -198,6 +199,7 @@ func plan(tier string, seed int64) []run.Batch {
 	add("measure-startup", 0, nil)
 	add("startup-long", 0, map[string]string{"populated": "no"})
 	add("startup-long", 0, map[string]string{"populated": "yes"})
+	add("startup-rem", 0, nil)
 	add("first-check", 0, nil)
 	add("extremes-low", 0, nil)
 	// server window offsets near 2^32 (offset = record offset + 2016)
@@ -253,6 +255,8 @@ func child(b run.Batch, r *ev.Result) {
 	switch b.Kind {
 	case "startup-long":
 		childStartupLong(b, r)
+	case "startup-rem":
+		childStartupRem(b, r)
 	case "first-check":
 		childFirstCheck(b, r)
 	case "trigger-at":
@@ -876,6 +880,10 @@ func childMeasureStartup(b run.Batch, r *ev.Result) {
 		} else if gap > maxNoCatch {
 			maxNoCatch = gap
 		}
+		rp := map[string]interface{}{"offset_before": off, "gap": gap, "offset_after_start": after, "now": now}
+		if !oldestAccepted(p, r, now, n, fmt.Sprintf("restart with now-offset=%d, right after start", gap), rp) {
+			return 0, false
+		}
 		// The cadence must leave every acceptable report inside the window:
 		// after start-up and the first iteration of the rotation loop (which
 		// the ungated server runs at once) the furthest acceptable slot,
@@ -886,6 +894,9 @@ func childMeasureStartup(b run.Batch, r *ev.Result) {
 			return 0, false
 		}
 		r.Count("rotations_observed", int64(n2))
+		if !oldestAccepted(p, r, now, n+int64(n2), fmt.Sprintf("restart with now-offset=%d, after the first loop iteration", gap), rp) {
+			return 0, false
+		}
 		acc, ok := p.probe(uint32(now), uint32(now+halfWidth))
 		if !ok {
 			return 0, false
@@ -932,7 +943,7 @@ func childMeasureStartup(b run.Batch, r *ev.Result) {
 			lo = mid
 		}
 	}
-	gaps := []int64{hi - 3, hi - 2, hi - 1, hi, hi + 1, hi + 2, 3200, 3201, 3599, 3600, 3601, 4463, 4464, hi + 2015, hi + 2016, hi + 2017, 8063, 8064, 10000, 5000 + (b.Seed*53)%5000}
+	gaps := []int64{hi - 3, hi - 2, hi - 1, hi, hi + 1, hi + 2, 3200, 3201, 3599, 3600, 3601, 4463, 4464, 2*2016 + 0, 2*2016 + 431, 3*2016 + 1, 3*2016 + 432, 7*2016 + 100, 7*2016 + 433, hi + 2015, hi + 2016, hi + 2017, 8063, 8064, 10000, 5000 + (b.Seed*53)%5000}
 	if b.Tier == "thorough" {
 		for i := 0; i < 20; i++ {
 			gaps = append(gaps, int64(p.rng.Intn(12000)))
@@ -972,6 +983,36 @@ func lastRecordOffset(b []byte) int64 {
 // rotation loop is parked at its gate and cannot help) the report for the
 // current slot must be storable; after ONE released loop iteration the whole
 // acceptance range up to now+432 must be.
+// oldestAccepted: once a rotation has happened in this start-up episode the
+// window start must not have passed the oldest acceptable slots: reports for
+// now-432 .. now-1 must still be storable (the unchanged rules rotate only
+// while now-offset >= 4000, or > 3200 in the loop, and so leave >= 1185 slots
+// behind the clock). Without a rotation nothing is demanded: a window that
+// starts less than 432 slots before the clock (genesis) is legitimate.
+func oldestAccepted(p *prober, r *ev.Result, now int64, rotated int64, stage string, replay map[string]interface{}) bool {
+	if rotated < 1 {
+		return true
+	}
+	slots := []int64{now - halfWidth, now - halfWidth + 1, now - 1 - p.rng.Int63n(halfWidth-1), now - 1}
+	for _, s := range slots {
+		if s < 0 {
+			continue
+		}
+		acc, ok := p.probe(uint32(now), uint32(s))
+		if !ok {
+			return false
+		}
+		if !acc {
+			r.Violationf("rotation-drops-oldest-acceptable-slots", replay,
+				"%s: %d rotation(s) moved the window start to %d, now=%d (now-offset=%d): the acceptable report for slot now-%d is refused because the window start has passed it",
+				stage, rotated, p.offset(), now, now-int64(p.offset()), now-s)
+			return true
+		}
+		r.Count("startup_oldest_slot_accepted", 1)
+	}
+	return true
+}
+
 func afterStart(p *prober, r *ev.Result, off0 uint32, now int64, what string) bool {
 	after := p.offset()
 	r.Eval(1)
@@ -990,12 +1031,19 @@ func afterStart(p *prober, r *ev.Result, off0 uint32, now int64, what string) bo
 	} else {
 		r.Count("startup_current_report_accepted", 1)
 	}
+	nStart := (int64(after) - int64(off0)) / 2016
+	if !oldestAccepted(p, r, now, nStart, what+", right after start", replay) {
+		return false
+	}
 	n2 := drv.StepRotation()
 	if n2 < 0 {
 		r.Inconc("the rotation loop did not come round within the watchdog time after a start (no conclusion)")
 		return false
 	}
 	r.Count("rotations_observed", int64(n2))
+	if !oldestAccepted(p, r, now, nStart+int64(n2), what+", after the first loop iteration", replay) {
+		return false
+	}
 	far := now + halfWidth
 	if far >= two32 {
 		far = two32 - 1
@@ -1013,6 +1061,34 @@ func afterStart(p *prober, r *ev.Result, off0 uint32, now int64, what string) bo
 		r.Count("startup_far_report_accepted", 1)
 	}
 	return true
+}
+
+// childStartupRem: fresh servers started k whole weeks plus a small remainder
+// after their window start; the catch-up must leave the oldest acceptable
+// slots inside the window.
+func childStartupRem(b run.Batch, r *ev.Result) {
+	rng := rand.New(rand.NewSource(b.Seed))
+	for i, k := range []int64{2, 3, 7, 4 + rng.Int63n(40)} {
+		for _, d := range []int64{0, 1, 100, 431, 432, 433, rng.Int63n(432)} {
+			now := k*2016 + d
+			bb := b
+			bb.Dir = filepath.Join(b.Dir, fmt.Sprintf("k%d-%d", i, d))
+			bb.Seed = b.Seed + int64(i)*1000 + d
+			os.MkdirAll(bb.Dir, 0755)
+			run.Op("fresh start weeks=%d remainder=%d", k, d)
+			p, done := startGated(bb, r, uint32(now), nil)
+			if p == nil {
+				return
+			}
+			p.label = fmt.Sprintf("startup-rem weeks=%d d=%d", k, d)
+			ok := afterStart(p, r, 0, now, fmt.Sprintf("fresh server started %d weeks + %d slots after its window offset", k, d))
+			done()
+			if !ok {
+				return
+			}
+			r.Count("startup_rem_cases", 1)
+		}
+	}
 }
 
 func childStartupLong(b run.Batch, r *ev.Result) {
@@ -1060,7 +1136,7 @@ func childStartupLong(b run.Batch, r *ev.Result) {
 		return
 	}
 	for i, k := range weeks {
-		for _, d := range []int64{rng.Int63n(1984), 2016 + rng.Int63n(1984)} {
+		for _, d := range []int64{rng.Int63n(1984), 2016 + rng.Int63n(1984), []int64{0, 1, 100, 431, 432, 433}[rng.Intn(6)]} {
 			now := k*2016 + d
 			bb := b
 			bb.Dir = filepath.Join(b.Dir, fmt.Sprintf("k%d-%d", i, d))
@@ -1310,7 +1386,7 @@ func childStartupAt(b run.Batch, r *ev.Result) {
 	var off64 int64
 	fmt.Sscan(b.P("offset"), &off64)
 	off := uint32(off64)
-	gaps := []int64{0, 3200, 3201, 3599, 3600, 3601, 3990, 3999, 4000, 4001, 4010, 5000, 6015, 6016, 6017, 8031, 8032, 4000 + (b.Seed*37)%4000}
+	gaps := []int64{0, 3200, 3201, 3599, 3600, 3601, 3990, 3999, 4000, 4001, 4010, 4032, 4032 + 431, 5000, 3*2016 + 1, 6015, 6016, 6017, 8031, 8032, 4000 + (b.Seed*37)%4000}
 	if rel := relWrap(off); rel >= 1 {
 		gaps = append(gaps, rel-1, rel, rel+1)
 	}
@@ -1352,6 +1428,11 @@ func childStartupAt(b run.Batch, r *ev.Result) {
 		} else if g > maxNo {
 			maxNo = g
 		}
+		rp := map[string]interface{}{"offset_before": off, "gap": g, "offset_after_start": after, "now": now}
+		if !oldestAccepted(p, r, now, n, fmt.Sprintf("start with window offset %d, now-offset=%d, right after start", off, g), rp) {
+			done()
+			return
+		}
 		n2 := drv.StepRotation()
 		if n2 < 0 {
 			r.Inconc("the rotation loop did not come round within the watchdog time after a start (no conclusion)")
@@ -1359,6 +1440,10 @@ func childStartupAt(b run.Batch, r *ev.Result) {
 			return
 		}
 		r.Count("rotations_observed", int64(n2))
+		if !oldestAccepted(p, r, now, n+int64(n2), fmt.Sprintf("start with window offset %d, now-offset=%d, after the first loop iteration", off, g), rp) {
+			done()
+			return
+		}
 		acc, ok := p.probe(uint32(now), uint32(far))
 		if ok && !acc {
 			r.Violationf("startup-leaves-acceptable-report-outside-window", map[string]interface{}{"offset_before": off, "gap": g, "offset_after_start": after, "offset_after_first_loop_iteration": p.offset(), "now": now},
@@ -1632,6 +1717,8 @@ func post(c *ev.Check, outs []*run.Outcome) {
 		}
 	}
 	c.Require("startup_long_cases", 10)
+	c.Require("startup_rem_cases", 20)
+	c.Require("startup_oldest_slot_accepted", 50)
 	c.Require("first_check.trials", 1)
 	c.Require("measured_trigger_at", 4)
 	c.Require("measured_catchup_at", 4)
